@@ -869,6 +869,38 @@ func (m *Machine) opMelt(t *rapid.T, adversarial bool) bool {
 		return false
 	}
 	inputs := proofsOf(ins)
+	if adversarial && rapid.Bool().Draw(t, "melt_adv_duplicate_input") {
+		// one proof listed twice (the copies differ in a field the mint ignores) to pay an invoice of almost twice its
+		// value, on a quote made for the purpose
+		p := ins[0].P
+		f2 := w.FeeFor(cashu.Proofs{p, p})
+		if p.Amount < 2 || p.Amount > 1<<30 || 2*p.Amount <= f2 {
+			return false
+		}
+		amt := 2*p.Amount - f2
+		for amt > 0 && amt+w.ReserveFor(amt)+f2 > 2*p.Amount {
+			amt--
+		}
+		if amt <= p.Amount || amt > 1<<30 {
+			return false
+		}
+		dq, err := w.RequestMeltQuote(w.Net.ExternalInvoice(amt*1000).Request, 0)
+		if err != nil {
+			return false
+		}
+		d := p
+		if rapid.Bool().Draw(t, "melt_dup_witness") {
+			d.Witness = `{"signatures":[]}`
+		} else {
+			d.DLEQ = &cashu.DLEQProof{E: "00", S: "00"}
+		}
+		w.LN.PayScript = []lnmodel.PayAnswer{lnmodel.PaySuccess}
+		r, err := w.MeltTokens(dq, cashu.Proofs{p, d})
+		w.LN.PayScript = nil
+		m.logf("adversarial melt: one %d sat proof listed twice for a quote of %d sat (reserve %d): state=%s err=%v", p.Amount, dq.Amount, dq.FeeReserve, r.State, err)
+		m.Count["adversarial_reached"]++
+		return true
+	}
 	if adversarial {
 		// one unit short: drop inputs until just below the need
 		need := q.Amount + q.FeeReserve + w.FeeFor(inputs)
